@@ -4,7 +4,9 @@ import (
 	"fmt"
 	"io"
 	"log"
+	"math"
 	"time"
+	"unicode/utf8"
 
 	"github.com/valyala/fastjson"
 
@@ -62,6 +64,10 @@ func ValueToJson(arena *fastjson.Arena, t octosql.Type, value octosql.Value) *fa
 	case octosql.TypeIDInt:
 		return arena.NewNumberInt(int(value.Int))
 	case octosql.TypeIDFloat:
+		if math.IsNaN(value.Float) || math.IsInf(value.Float, 0) {
+			// JSON has no representation for NaN and infinities (fastjson would print NaN / +Inf).
+			return arena.NewNull()
+		}
 		return arena.NewNumberFloat64(value.Float)
 	case octosql.TypeIDBoolean:
 		if value.Boolean {
@@ -70,7 +76,7 @@ func ValueToJson(arena *fastjson.Arena, t octosql.Type, value octosql.Value) *fa
 			return arena.NewFalse()
 		}
 	case octosql.TypeIDString:
-		return arena.NewString(value.Str)
+		return newJSONString(arena, value.Str)
 	case octosql.TypeIDTime:
 		return arena.NewString(value.Time.Format(time.RFC3339))
 	case octosql.TypeIDDuration:
@@ -96,6 +102,57 @@ func ValueToJson(arena *fastjson.Arena, t octosql.Type, value octosql.Value) *fa
 	default:
 		panic(fmt.Sprintf("invalid octosql value type to print: %s", value.TypeID.String()))
 	}
+}
+
+// newJSONString returns a JSON string value for s.
+// fastjson (v1.6.3) escapes strings containing '"', '\\' or control characters with strconv.AppendQuote,
+// i.e. with Go syntax (\x00, \a, \v, \U000e0001), which is not valid JSON. Such strings are escaped here
+// and handed to fastjson as pre-rendered text (NewNumberString values are marshalled verbatim).
+func newJSONString(arena *fastjson.Arena, s string) *fastjson.Value {
+	special := false
+	for i := 0; i < len(s); i++ {
+		if c := s[i]; c < 0x20 || c == '"' || c == '\\' {
+			special = true
+			break
+		}
+	}
+	if !special && utf8.ValidString(s) {
+		return arena.NewString(s)
+	}
+	return arena.NewNumberString(string(appendJSONString(make([]byte, 0, len(s)+8), s)))
+}
+
+func appendJSONString(dst []byte, s string) []byte {
+	const hex = "0123456789abcdef"
+	dst = append(dst, '"')
+	for i := 0; i < len(s); {
+		c := s[i]
+		switch {
+		case c == '"' || c == '\\':
+			dst = append(dst, '\\', c)
+		case c == '\n':
+			dst = append(dst, '\\', 'n')
+		case c == '\r':
+			dst = append(dst, '\\', 'r')
+		case c == '\t':
+			dst = append(dst, '\\', 't')
+		case c < 0x20:
+			dst = append(dst, '\\', 'u', '0', '0', hex[c>>4], hex[c&0xf])
+		case c < utf8.RuneSelf:
+			dst = append(dst, c)
+		default:
+			r, size := utf8.DecodeRuneInString(s[i:])
+			if r == utf8.RuneError && size == 1 {
+				dst = append(dst, "\\ufffd"...)
+			} else {
+				dst = append(dst, s[i:i+size]...)
+			}
+			i += size
+			continue
+		}
+		i++
+	}
+	return append(dst, '"')
 }
 
 func (t *JSONFormatter) Close() error {
